@@ -274,7 +274,7 @@ func correlatedBody(kind string, nreq int, planSet []int, idShapes ...int) nd.Bo
 					}
 				}
 				o.cancelled = ctxs[i].Err() != nil
-				o.returned = true
+				vs.Atomically(func() { o.returned = true })
 			}
 			for i := 0; i < nreq; i++ {
 				ctxs[i], cancels[i] = context.WithCancel(context.Background())
